@@ -58,6 +58,32 @@ pub struct LocalPlan {
     /// threads end by panicking: the remaining handles are dropped by unwinding
     #[serde(default)]
     pub panic_end: bool,
+    /// vector kinds: two labels whose values shift a U+00FF across the label boundary
+    /// (["x\u{ff}y", "z"] and ["x", "y\u{ff}z"]) instead of one label with the values x / y
+    #[serde(default)]
+    pub two_labels: bool,
+}
+/// set at the start of every run (runs of one worker process are sequential)
+static TWO_LABELS: std::sync::atomic::AtomicBool = std::sync::atomic::AtomicBool::new(false);
+fn two() -> bool {
+    TWO_LABELS.load(std::sync::atomic::Ordering::SeqCst)
+}
+fn tuple(t: usize) -> Vec<&'static str> {
+    if two() {
+        [["x\u{ff}y", "z"], ["x", "y\u{ff}z"]][t].to_vec()
+    } else {
+        vec![TUPLES[t]]
+    }
+}
+fn label_names() -> Vec<&'static str> {
+    if two() {
+        vec!["l", "m"]
+    } else {
+        vec!["l"]
+    }
+}
+fn key_of(t: usize) -> String {
+    tuple(t).join("\u{1}")
 }
 fn bounds_of(plan: &LocalPlan) -> Vec<f64> {
     if plan.bound_bits.is_empty() {
@@ -167,7 +193,8 @@ fn gen_plan(seed: u64) -> LocalPlan {
         vec![]
     };
     let panic_end = r.chance(15);
-    LocalPlan { env, kind, signed, threads, bound_bits, panic_end }
+    let two_labels = is_vec && r.chance(35);
+    LocalPlan { env, kind, signed, threads, bound_bits, panic_end, two_labels }
 }
 
 enum Shared {
@@ -202,8 +229,8 @@ impl Shared {
             SharedKind::Counter => Shared::C(Counter::with_opts(o).unwrap()),
             SharedKind::IntCounter => Shared::IC(IntCounter::with_opts(o).unwrap()),
             SharedKind::Histogram => Shared::H(Histogram::with_opts(hopts()).unwrap()),
-            SharedKind::CounterVec => Shared::CV(CounterVec::new(o, &["l"]).unwrap()),
-            SharedKind::HistogramVec => Shared::HV(HistogramVec::new(hopts(), &["l"]).unwrap()),
+            SharedKind::CounterVec => Shared::CV(CounterVec::new(o, &label_names()).unwrap()),
+            SharedKind::HistogramVec => Shared::HV(HistogramVec::new(hopts(), &label_names()).unwrap()),
         }
     }
     fn local(&self) -> Loc {
@@ -220,8 +247,8 @@ impl Shared {
             Shared::C(c) => c.inc_by(w as f64),
             Shared::IC(c) => c.inc_by(w),
             Shared::H(c) => c.observe(hv),
-            Shared::CV(c) => c.with_label_values(&[TUPLES[t]]).inc_by(w as f64),
-            Shared::HV(c) => c.with_label_values(&[TUPLES[t]]).observe(hv),
+            Shared::CV(c) => c.with_label_values(&tuple(t)).inc_by(w as f64),
+            Shared::HV(c) => c.with_label_values(&tuple(t)).observe(hv),
         }
     }
     /// value per tuple ("" for scalar kinds)
@@ -236,7 +263,7 @@ impl Shared {
         let f = compat::family_of(&mfs[0]);
         let mut out = BTreeMap::new();
         for m in &f.metrics {
-            let key = m.labels.iter().find(|(k, _)| k == "l").map(|(_, v)| v.clone()).unwrap_or_default();
+            let key = ["l", "m"].iter().filter_map(|n| m.labels.iter().find(|(k, _)| k == n).map(|(_, v)| v.clone())).collect::<Vec<_>>().join("\u{1}");
             let v = match (&m.counter, &m.hist) {
                 (Some(c), _) => RV { sum: *c, count: 0, buckets: vec![] },
                 (_, Some(h)) => RV { sum: h.sum, count: h.count, buckets: h.buckets.clone() },
@@ -253,8 +280,8 @@ impl Loc {
             Loc::C(c) => c.inc_by(w as f64),
             Loc::IC(c) => c.inc_by(w),
             Loc::H(c) => c.observe(hv),
-            Loc::CV(c) => c.with_label_values(&[TUPLES[t]]).inc_by(w as f64),
-            Loc::HV(c) => c.with_label_values(&[TUPLES[t]]).observe(hv),
+            Loc::CV(c) => c.with_label_values(&tuple(t)).inc_by(w as f64),
+            Loc::HV(c) => c.with_label_values(&tuple(t)).observe(hv),
         }
     }
     /// flushes twice (the second must add nothing); the second goes through the LocalMetric trait
@@ -301,8 +328,8 @@ impl Loc {
     }
     fn remove(&mut self, t: usize) -> bool {
         match self {
-            Loc::CV(c) => c.remove_label_values(&[TUPLES[t]]).is_ok(),
-            Loc::HV(c) => c.remove_label_values(&[TUPLES[t]]).is_ok(),
+            Loc::CV(c) => c.remove_label_values(&tuple(t)).is_ok(),
+            Loc::HV(c) => c.remove_label_values(&tuple(t)).is_ok(),
             _ => false,
         }
     }
@@ -312,9 +339,9 @@ impl Loc {
             Loc::C(c) => (c.get(), None),
             Loc::IC(c) => (c.get() as f64, None),
             Loc::H(c) => (c.get_sample_sum(), Some(c.get_sample_count())),
-            Loc::CV(c) => (c.with_label_values(&[TUPLES[t]]).get(), None),
+            Loc::CV(c) => (c.with_label_values(&tuple(t)).get(), None),
             Loc::HV(c) => {
-                let l = c.with_label_values(&[TUPLES[t]]);
+                let l = c.with_label_values(&tuple(t));
                 (l.get_sample_sum(), Some(l.get_sample_count()))
             }
         }
@@ -330,6 +357,7 @@ enum LRes {
 }
 
 fn execute(plan: &LocalPlan, mode: Mode) -> RunOut {
+    TWO_LABELS.store(plan.two_labels, std::sync::atomic::Ordering::SeqCst);
     let sim = new_sim(&plan.env, mode);
     let shared = Arc::new(Shared::new(plan));
     let results: Results<LRes> = Arc::new(Mutex::new(vec![]));
@@ -588,7 +616,7 @@ fn execute(plan: &LocalPlan, mode: Mode) -> RunOut {
         compare(plan, &shared_m, &got, "after all threads finished", is_vec, is_hist, detached_lost, &mut out);
     }
     let mut fp = crate::rng::Fp::default();
-    fp.str(&serde_json::to_string(&(&plan.kind, &plan.threads)).unwrap());
+    fp.str(&serde_json::to_string(&(&plan.kind, &plan.threads, plan.two_labels)).unwrap());
     out.signature = out.signature.wrapping_add(fp.0);
     let n_panic = plan.threads.iter().flatten().filter(|o| matches!(o, LOp::PanicDrop { .. })).count() as u64 + if plan.panic_end { plan.threads.len() as u64 } else { 0 };
     out.faults.push(("injected_panic_unwinding", n_panic));
@@ -602,7 +630,7 @@ fn compare(plan: &LocalPlan, model: &BTreeMap<usize, u64>, got: &BTreeMap<String
     let mut want: BTreeMap<String, u64> = BTreeMap::new();
     if is_vec {
         for (k, v) in model {
-            want.insert(TUPLES[*k].to_string(), *v);
+            want.insert(key_of(*k), *v);
         }
     } else {
         want.insert(String::new(), model.get(&0).copied().unwrap_or(0));
